@@ -16,7 +16,8 @@ META = {
 TRUSTED = [
     "Coq 8.16.1 kernel and VM (vm_compute); no native_compute; no axioms (Print Assumptions: closed under the global context)",
     "hand-written model coq/theories/BitSetModel.v of set/bit_set.go, tied by correspondence only",
-    "Go harness harness/cmd/c11 (generator, observation of bits/results), Go 1.23 toolchain",
+    "Go harness harness/cmd/c11 (generator, observation of bits/results; every sequence runs under recover(), a panicking operation ends it and is a failing input), Go 1.23 toolchain",
+    "file set of the translator: harness/internal/srcset (all non-test .go files of package set matching the build context of the harness build)",
     "translator harness/cmd/xlate_bitset + harness/internal/setxl (go/parser -> Gallina for a subset of Go: helper functions, index loops, if/else with return/continue/break, op-assignments); its output is proved equal to the model for all arguments by coq/ties/Tie_C11.v (shape-independent tactics of Base/SetLoopTie.v); the translator itself is validated by the correspondence run",
 ]
 
@@ -84,7 +85,17 @@ def run(ctx):
         ctx.report(rep, features(j), failing_input=(code == 1))
     if not tie_ok and not ctx.violations:
         # a broken tie with a clean correspondence run: widen the search for a failing input
-        t2, j2, err = vlib.harness_cases(ctx, binp, [("widen", ["-mode", "random", "-n", 2500, "-seed", ctx.seed + 7919]),
+        # beyond the caps of the ordinary run: argument lists up to twice the largest integer literal of the
+        # source (thresholds such as `len(flags) > 4`), at least 32
+        import re
+        src = re.sub(r"//[^\n]*", "", open(os.path.join(ctx.copy_repo(), "set", "bit_set.go"), errors="replace").read()) \
+            if os.path.isfile(os.path.join(ctx.copy_repo(), "set", "bit_set.go")) else ""
+        for name in sorted(os.listdir(os.path.join(ctx.copy_repo(), "set"))):
+            if name.endswith(".go") and not name.endswith("_test.go") and name != "bit_set.go":
+                src += re.sub(r"//[^\n]*", "", open(os.path.join(ctx.copy_repo(), "set", name), errors="replace").read())
+        lits = [int(m) for m in re.findall(r"(?<![\w.])(\d{1,3})(?![\w.])", src) if 2 <= int(m) <= 100]
+        maxargs = max([32] + [2 * v + 2 for v in lits])
+        t2, j2, err = vlib.harness_cases(ctx, binp, [("widen", ["-mode", "random", "-n", 2500, "-maxargs", maxargs, "-seed", ctx.seed + 7919]),
                                                      ("widensweep", ["-mode", "sweep", "-n", 24, "-seed", ctx.seed + 104729])])
         if not err:
             sm = [(i, t) for i, t in enumerate(t2) if j2[i]["kind"] != "sweep8"]
@@ -157,7 +168,7 @@ def triple_sweep(ctx, binp, header):
 
 
 def g_op(o):
-    a = o["args"]
+    a = o["args"] or []
     lst = vlib.g_list([vlib.g_N(x) for x in a])
     return {"Make": "BMake " + lst, "Add": "BAdd " + lst, "Remove": "BRemove " + lst,
             "HasAny": "BHasAny " + lst}.get(o["op"]) or (
